@@ -18,9 +18,10 @@ package daemonset
 //@ ensures {C07} target_suffices: result1 == nil && release.Status.CanaryStatus.NoNeedUpdateReplicas == nil ==> rc.Replicas - result0.DesiredPartition.IntVal >= result0.DesiredUpdatedReplicas
 
 //@ func (*realController).UpgradeBatch
-//@ props C01 C06
+//@ props C01 C06 C07
 //@ requires rc != nil && ctx != nil && rc.object != nil && rc.client != nil
 //@ ensures one_write: #Patch <= 1 && #Update == 0 && #Create == 0 && #Delete == 0
 //@ ensures only_forward: #Patch == 1 ==> old(ctx.CurrentPartition.IntVal) > old(ctx.DesiredPartition.IntVal)
 //@ ensures idempotent: old(ctx.CurrentPartition.IntVal) <= old(ctx.DesiredPartition.IntVal) ==> #Patch == 0 && result == nil
+//@ ensures {C07} writes_unless_target_met: #Patch == 0 ==> old(ctx.CurrentPartition.IntVal) <= old(ctx.DesiredPartition.IntVal)
 //@ ensures body: #Patch == 1 ==> patchBody(#Patch.arg3) == sprintf("{\"spec\":{\"updateStrategy\":{\"rollingUpdate\":{\"partition\":%d}}}}", old(ctx.DesiredPartition.IntVal))
